@@ -740,6 +740,9 @@ def check_C17(ctx):
     if nerr == 0 or nerr == len(cases):
         raise ToolError("vacuous label-line cases")
     tp = record_stage(ctx, "corruptions", "c17-record", [ctx.seed, 400 if q else 20000], timeout=7200) if False else None
+    up = record_stage(ctx, "time-units", "dur-record", [ctx.seed, 150 if q else 4000, "units"])
+    trace_stage(ctx, "time-units", S("trace", "Trace_Duration.cfg"), S("trace", "Trace_Duration.tla"), up, reset_ev="__none__",
+                keyfn=lambda e, run: "units:%s" % e.get("ev"))
     tpath = ctx.path("corruptions.ndjson")
     p = run_jbv(["c17-record", ctx.seed, 400 if q else 20000, tpath, BUNDLED], timeout=7200)
     if p.returncode != 0:
